@@ -20,13 +20,14 @@ CHECKS = {
          "machine, so an implementation change that produces a molecule or spelling the specification does not allow is "
          "seen, and the specification itself is shown to have the property.", "DESIGN.md section 6 (C01)"),
  "C02": ("TLC-generated behaviours of the decoder specification (all strings up to a bound, every rule in every state) "
-         "replayed into selfies.decoder; recorded calls validated by TLC trace checking",
+         "replayed into selfies.decoder, incl. narrow-deep enumerations (4 symbols x 9-10); recorded calls - long generated strings "
+         "and every call the repository's own fast tests make - validated by TLC trace checking",
          "Exact agreement (string, else molecule read back by the specification's SMILES reader) between the "
          "implementation and an independent TLA+ rendering of the derivation grammar on every enumerated string and "
          "on long sampled strings; rejection kind compared in the precise region.", "DESIGN.md section 6 (C02)"),
  "C07": ("TLC enumeration of constraint tables (TableSpace) with alphabet invariants, replayed into "
          "set_semantic_constraints/get_semantic_robust_alphabet; decoder machine over the robust alphabet model-checked "
-         "and trace-validated",
+         "(incl. every string over 4-symbol sub-alphabets up to 9-10 symbols) and trace-validated",
          "Acceptance of tables and the returned alphabet are compared with the specification for every enumerated table "
          "(set equality); strings over the alphabet are model-checked never to reach an invalid symbol and to keep the "
          "C01 invariants, and real decodes of long random strings over the returned alphabet are trace-validated.",
@@ -48,7 +49,8 @@ CHECKS = {
          "Exhaustive over short texts on a 4-character alphabet, exact on the well-formed region, totality elsewhere.",
          "DESIGN.md section 6 (C14)"),
  "C16": ("TLC constant-level evaluation (ASSUMEs over all n < 16^3 and all symbol triples) + ImplTables equality + "
-         "TLC trace validation of decoder calls with every index-symbol tuple",
+         "TLC trace validation of decoder calls with every index-symbol tuple and every class of symbol in index positions; "
+         "Apalache: the digit writer's invariant n = rem*w + val is inductive over the unbounded integers (IndexAbs)",
          "The positional code is checked exhaustively at constant level in the specification, the implementation's "
          "INDEX_ALPHABET is compared with the documented order, and ring/branch placement for index tuples is validated "
          "through the public decoder.", "DESIGN.md section 6 (C16)"),
@@ -63,7 +65,8 @@ CHECKS = {
 CHECKS.update({
  "C03": ("TLC model checking of the Encode->Decode round trip (SameAtoms/SameBonds invariants) over all SMILES token strings "
          "up to a bound; TLC-generated allowed outcomes replayed into selfies.encoder; dataset molecules in many spellings "
-         "recorded and judged by TLC (TraceRT) with the specification's own reader and decoder",
+         "recorded and judged by TLC (TraceRT) with the specification's own reader and decoder; narrow-deep token enumerations "
+         "(5 tokens x 10-12); the encoder calls of the repository's own tests validated alike",
          "The round trip is model-checked in the specification for every token string up to the bound; the real encoder must "
          "return one of the outcomes the specification allows; for real molecules (datasets, re-spelled) the encoder's output "
          "is decoded by the specification's decoder machine - an oracle that shares no tables with the code - and compared "
@@ -75,7 +78,9 @@ CHECKS.update({
          "thousands of re-spellings of stereo-rich molecules.", "DESIGN.md section 6 (C04)"),
  "C05": ("TLC enumeration of aromatic token strings with a nondeterministic Kekule step (any valid pi assignment; failure "
          "only if none exists); allowed outcome sets replayed into selfies.encoder; fused/bridged/cage systems in many atom "
-         "orders judged by TLC: the implementation's assignment is read back and verified, rejections checked by search",
+         "orders judged by TLC: the implementation's assignment is read back and verified, rejections checked by search; "
+         "the perfect-matching ALGORITHM as its own TLA+ machine (Matching): model-checked on all small graphs, enumerated and "
+         "random graphs replayed into find_perfect_matching, its recorded steps trace-validated (contract vs. drift)",
          "Order independence holds in the specification by construction; the code is shown to stay inside the allowed set "
          "for every spelling of every small aromatic system, and its Kekule choice is verified (not trusted) on large systems "
          "such as C60 in hundreds of atom orders.", "DESIGN.md section 6 (C05)"),
@@ -98,12 +103,14 @@ CHECKS.update({
          "symbol and the fixpoint on real molecules.", "DESIGN.md section 6 (C10)"),
  "C11": ("TLC model checking of the API history model (SelfiesAPI: heap with object identity, live table, memo layers) with "
          "CachesCoherent / ResultFresh invariants and negative controls; every history up to the depth bound replayed call by "
-         "call into the library; long random histories compared with a fresh interpreter; hash-seed sweep",
+         "call into the library; long random histories compared with a fresh interpreter; hash-seed sweep; Apalache: the "
+         "cache-coherence / no-aliasing conjunction is inductive on the history-free abstraction ApiAbs (any number of calls)",
          "Every sequence of API calls up to the bound (presets, valid/invalid customs, caller mutations, probe translations) "
          "is explored in the specification and replayed into one interpreter with all observables compared after every call.",
          "DESIGN.md section 6 (C11)"),
  "C12": ("TLC model checking of SelfiesAPI (SetGet, RejectAtomic, NoAliasing, PresetsImmutable) + replay of every history with "
-         "caller-side mutation of every returned / passed object; wrong-type arguments",
+         "caller-side mutation of every returned / passed object (tables passed as several mapping types); wrong-type "
+         "arguments; Apalache inductive argument on ApiAbs (negative configurations refuted, incl. the code's aliasing getter)",
          "Aliasing is expressible because objects have identity in the model; the same mutations are performed on the real "
          "returned objects and all getters compared after each step.", "DESIGN.md section 6 (C12)"),
  "C15": ("TLC enumeration of vocabularies x strings x pad lengths x enc types (EncodingUtils) with LabelShape / "
